@@ -152,6 +152,10 @@ def tree(rnd, d, D, T, depth, normalizable=False, first=None, allow=ALL_LEAVES):
             term = f"(DAdd {p.term} {term})"
         lo = [max(p.lo[i] for p in parts) for i in range(d)]
         hi = [min(p.hi[i] for p in parts) for i in range(d)]
+        if any(h - l < 0.25 for l, h in zip(lo, hi)):
+            # the supports of the parts do not overlap (e.g. a box below the positive half-line of a transform): a posterior that is zero
+            # everywhere has no interior point to evaluate; one of its parts stands in
+            return parts[0]
         kinks = [sum((p.kinks[i] for p in parts), []) for i in range(d)]
         return Node(obj, term, d, lo, hi, f"{cls.__name__}[" + ", ".join(p.desc for p in parts) + "]", kinks, any(p.positive for p in parts))
     if k == "composite" and d >= 2:
@@ -181,8 +185,12 @@ def tree(rnd, d, D, T, depth, normalizable=False, first=None, allow=ALL_LEAVES):
         base = rnd.choice([10.0, 2.0, 3.0, 1.5, math.e])
         obj = T.TransformToLogSpace(inner.obj, base=base)
         # evaluation domain: m = base^x with x in inner's domain
-        lo = [max(base ** max(l, -3.0), 1e-3) for l in inner.lo]
-        hi = [base ** min(h, 3.0) for h in inner.hi]
+        # (exponents clamped for the sake of magnitudes, consistently: the upper one never below the lower one plus a margin --
+        #  with nested transforms the inner domain can start above 3)
+        e_lo = [max(l, -3.0) for l in inner.lo]
+        e_hi = [min(h, max(3.0, el + 1.0)) for h, el in zip(inner.hi, e_lo)]
+        lo = [max(base ** el, 1e-3) for el in e_lo]
+        hi = [base ** eh for eh in e_hi]
         def pw(kk):
             try:
                 return base ** kk
